@@ -74,6 +74,10 @@ RENDERABLE = {
 # classes whose constructor does not take the diagnostic (NoResource.__init__ takes none; in
 # NoRequestInterface RuntimeError.__init__ comes first in the MRO): raised without arguments
 FIXED_TEXT = ("NoResource", "NoRequestInterface")
+# codes a message can carry that are no response codes: EMPTY, requests, classes 1, 6, 7 (boundaries of 2.00..5.31)
+NON_RESPONSE_CODES = [0, 1, 2, 31, 32, 63, 192, 224, 225, 255]
+# lengths of options + payload marker + payload at which the RFC 8323 framing changes its form (and neighbours)
+TCP_BODY_LENGTHS = [0, 2, 3, 11, 12, 13, 14, 15, 267, 268, 269, 270, 271, 65803, 65804, 65805, 65806, 65807]
 PATHS = [[], ["a"], ["b"], ["a", "b"], ["x", "y", "z"], ["r1"], ["sensors", "temp"], ["0"]]
 NR_VALUES = [None, None, None, 0, 2, 8, 16, 24, 26, 127]
 
@@ -393,10 +397,13 @@ class Gen:
         self.k += 1
         return self.k
 
-    def token(self):
-        """a fresh token of 0..8 bytes (distinct within the case)"""
+    def token(self, n=None):
+        """a fresh token (distinct within the case) of n bytes, by default 1..8"""
         self.tok += 1
-        n = self.rng.choice([1, 1, 2, 2, 3, 4, 8, 8])
+        if n == 0:
+            return ""
+        if n is None:
+            n = self.rng.choice([1, 1, 2, 2, 3, 4, 8, 8])
         return (self.tok * 2654435761 % (1 << (8 * n))).to_bytes(n, "big").hex() if n < 8 else \
             (self.tok * 0x9E3779B97F4A7C15 % (1 << 64)).to_bytes(8, "big").hex()
 
@@ -414,7 +421,8 @@ class Gen:
             d = rng.choice([0, 0, 0, 1, 977, EAD - 1, EAD, EAD + 1, 3 * EAD, 5 * EAD + 13])
         h = {"o": kind, "d": 0 if kind == "hang" else d, "stubborn": rng.random() < 0.3}
         if kind == "ret":
-            h["code"] = rng.choice([None, None, None, 65, 66, 67, 68, 69, 95, 128, 132, 160, 163])
+            h["code"] = rng.choice([None, None, None, None, 65, 66, 67, 68, 69, 95, 128, 132, 160, 163, 64, 191,
+                                    rng.choice(NON_RESPONSE_CODES)])
             h["payload"] = rng.choice(["", "6869", rng.randbytes(rng.randrange(1, 40)).hex(),
                                        rng.randbytes(rng.choice([200, 1000, 1024])).hex()])
             h["nr"] = rng.choice([None, None, None, None, 0, 2, 8, 16, 26])
@@ -423,10 +431,10 @@ class Gen:
             h["cls"] = cls
             h["msg"] = rng.choice([None, "diag %d" % rng.randrange(100), "", "Grüße ✓"])
             if cls == "Direct":
-                h["code"] = rng.choice([128, 132, 143, 160, 165, 95])
+                h["code"] = rng.choice([128, 132, 143, 160, 165, 95, 2])
                 h["msg"] = h["msg"] or "direct"
             if cls == "Custom":
-                h["code"] = rng.choice([129, 159, 191, 64])
+                h["code"] = rng.choice([129, 159, 191, 64, 0, 1])
                 h["default"] = "custom default"
         elif kind == "exc":
             h["exc"] = rng.choice(c09_run.EXC_KINDS)
@@ -495,6 +503,22 @@ class Gen:
         return fix_collisions(case)
 
 
+def random_tcp_case(gen):
+    rng = gen.rng
+    c = gen.random_case()
+    csm = rng.choice(["big", "big", "plain"])
+    for r in c["site"] or []:
+        for h in r["handlers"].values():
+            if h["o"] in ("ret", "rend") and rng.random() < 0.35:
+                L = rng.choice([n for n in TCP_BODY_LENGTHS if csm == "big" or n < 1000])
+                h["fill"] = max(L - 1 + rng.choice([0, 0, 0, -1, 1]), 0)
+                if h["o"] == "rend" and h["cls"] in FIXED_TEXT:
+                    del h["fill"]               # these classes take no diagnostic
+    c = as_tcp(c, csm)
+    c["peers"] = {}
+    return c
+
+
 def fix_collisions(case):
     """keep stop and completion of one request on different ticks (asyncio orders equal deadlines
     arbitrarily) and never override a request in the tick it arrives"""
@@ -524,8 +548,8 @@ def boundary_cases(gen):
     rng = gen.rng
     M = list(range(1, 8))
 
-    def pack(site, reqs, peers=None):
-        cases.append(fix_collisions({"site": site, "requests": reqs, "peers": peers or {}}))
+    def pack(site, reqs, peers=None, **extra):
+        cases.append(fix_collisions(dict({"site": site, "requests": reqs, "peers": peers or {}}, **extra)))
 
     # 1. method x code given/absent x CON/NON, plus unassigned request codes and unknown paths
     site = [{"path": ["d"], "handlers": {str(m): {"o": "ret", "d": 0, "stubborn": False, "code": None,
@@ -702,7 +726,7 @@ def boundary_cases(gen):
                     for i, m in enumerate(order):
                         reqs.append(gen.request(t, 1, m, ["g"], mtype=mts[i % 3], nr=None))
                         t += gap
-                    pack(site, reqs, {"1": policy})
+                    pack(site, reqs, {"1": policy}, udp_only=True)
     # 8. a handler whose message cannot be serialised (str payload, option value out of range), quick and slow,
     #    CON and NON, with healthy slow requests of the same and of another peer in flight and afterwards:
     #    one bare 5.00 for it, and nobody else is affected (oracle only)
@@ -738,28 +762,146 @@ def boundary_cases(gen):
                     gen.request(90, 0, 3, ["v"], mtype="CON", nr=None),
                     gen.request(60 + 10 * EAD, 0, 3, ["v"], mtype="NON", nr=None)]
             pack(site, reqs, {"0": policy, "1": "ack"})
+    # 9. a returned message (and an error renderer's message) whose code is no response code -- EMPTY, request
+    #    codes, classes 1, 6 and 7, and the two ends of the response range for contrast -- quick and slow, CON and
+    #    NON, then a healthy request of the same peer
+    site = []
+    reqs = []
+    t = 0
+    for n, code in enumerate(NON_RESPONSE_CODES + [64, 191]):
+        site.append({"path": ["q", str(n)], "handlers": {
+            "1": {"o": "ret", "d": 0, "stubborn": False, "code": code, "payload": "6f6f7073", "nr": None},
+            "2": {"o": "ret", "d": 3 * EAD, "stubborn": False, "code": code, "payload": "", "nr": None},
+            "3": {"o": "rend", "d": 0, "stubborn": False, "cls": "Custom", "msg": None, "code": code,
+                  "default": "custom default"},
+            "4": {"o": "rend", "d": 3 * EAD, "stubborn": False, "cls": "Direct", "msg": "direct", "code": code},
+            "5": {"o": "ret", "d": 0, "stubborn": False, "code": None, "payload": "6f6b", "nr": None}}})
+        for mt in ("CON", "NON"):
+            for m in (1, 2, 3, 4, 5):
+                t += 60
+                reqs.append(gen.request(t, n % 4, m, ["q", str(n)], mtype=mt, nr=None))
+    pack(site, reqs)
+    # 10. a resource that hands out ONE pre-built Message object for every request (from two of its handlers, a
+    #     quick and a slow one with the same default code): piggy-backed first, then to a NON request, to a CON
+    #     request that has already got its empty ACK, piggy-backed again; the other order; two peers in turn.
+    #     Every use ends (the peers acknowledge separate responses at once) before the next begins: an object
+    #     handed out again while the message layer still retransmits it is the application changing a message the
+    #     message layer owns (DESIGN section 7, position held with C03)
+    for code in (None, 69):
+        for first in ("CON", "NON"):
+            site = [{"path": ["st"], "handlers": {
+                "1": {"o": "ret", "d": 0, "stubborn": False, "code": code, "payload": "737461746963", "nr": None,
+                      "shared": "page"},
+                "5": {"o": "ret", "d": 3 * EAD, "stubborn": False, "code": code, "payload": "737461746963",
+                      "nr": None, "shared": "page"}}}]
+            order = [(1, first, 0), (1, "NON", 0), (5, "CON", 0), (1, "CON", 1), (5, "NON", 1), (1, "CON", 0),
+                     (5, "CON", 1), (1, "NON", 1), (1, "CON", 1)]
+            reqs = []
+            t = 50
+            for m, mt, peer in order:
+                reqs.append(gen.request(t, peer, m, ["st"], mtype=mt, nr=None))
+                t += 6 * EAD
+            pack(site, reqs, {"0": "ack", "1": "ack"})
+    return cases
+
+
+def as_tcp(case, csm="big"):
+    """the same site and schedule, the requests arriving over CoAP-over-TCP connections (one per peer)"""
+    c = copy.deepcopy(case)
+    c["transport"] = "tcp"
+    c["csm"] = csm
+    for rq in c["requests"]:
+        rq["mc"] = False
+        rq["mtype"] = "TCP"
+    return fix_collisions(c)
+
+
+def tcp_boundary_cases(gen, udp_cases):
+    """the CoAP-over-TCP level, enumerated in full in every tier"""
+    cases = []
+    rng = gen.rng
+    # T1. response sizes on the RFC 8323 framing boundaries x token lengths (Len and TKL share the first byte) x the
+    #     kind of outcome the size comes from: returned payload (code absent / given, quick / slow), diagnostic of a
+    #     raised renderable error (library class / own renderer); every failing kind next to them
+    for csm, lengths in (("big", TCP_BODY_LENGTHS), ("plain", [n for n in TCP_BODY_LENGTHS if n < 1000])):
+        site = []
+        reqs = []
+        t = 0
+        for n, L in enumerate(lengths):
+            fill = max(L - 1, 0)
+            site.append({"path": ["z", str(L)], "handlers": {
+                "1": {"o": "ret", "d": 0, "stubborn": False, "code": None, "fill": fill, "nr": None},
+                "2": {"o": "rend", "d": 0, "stubborn": False, "cls": "BadRequest", "msg": "", "fill": fill},
+                "5": {"o": "ret", "d": 3 * EAD, "stubborn": False, "code": 69, "fill": fill, "nr": None},
+                "3": {"o": "rend", "d": 3 * EAD, "stubborn": False, "cls": "Custom", "msg": "", "fill": fill,
+                      "code": 159, "default": "custom default"},
+                "4": {"o": "exc", "d": 0, "stubborn": False, "exc": "ValueError", "k": gen.secret_k()},
+                "6": {"o": "nonmsg", "d": 0, "stubborn": False, "val": "str", "k": gen.secret_k()},
+                "7": {"o": "rfail", "d": 0, "stubborn": False, "how": "raises", "k": gen.secret_k()}}})
+            for m, tkls in ((1, (0, 8)), (2, (0, 8)), (5, (1, 5)), (3, (2, 7)), (4, (0,)), (6, (3,)), (7, (8,))):
+                for tkl in tkls:
+                    t += 50
+                    reqs.append(gen.request(t, (t // 50) % 4, m, ["z", str(L)], mtype="TCP", nr=None,
+                                            token=gen.token(tkl)))
+        cases.append(fix_collisions({"site": site, "requests": reqs, "peers": {}, "transport": "tcp", "csm": csm}))
+    # T2. the same sizes made up of an option and a payload (ETag of 4 bytes: 5 bytes of options; oracle only)
+    site = []
+    reqs = []
+    t = 0
+    for L in [5] + [n for n in TCP_BODY_LENGTHS if n >= 7]:
+        site.append({"path": ["y", str(L)], "handlers": {
+            "3": {"o": "ret", "d": 0, "stubborn": False, "code": 68, "fill": max(L - 6, 0), "nr": None,
+                  "etag": "a1b2c3d4"},
+            "1": {"o": "ret", "d": 2 * EAD, "stubborn": False, "code": None, "fill": max(L - 6, 0), "nr": None,
+                  "etag": "00ff00ff"}}})
+        for m, tkl in ((3, 0), (3, 8), (1, 4)):
+            t += 50
+            reqs.append(gen.request(t, (t // 50) % 4, m, ["y", str(L)], mtype="TCP", nr=None, token=gen.token(tkl)))
+    cases.append(fix_collisions({"site": site, "requests": reqs, "peers": {}, "transport": "tcp", "csm": "big"}))
+    # T3. every boundary table of the UDP level that is not about the message layer (retransmission, overlapping
+    #     separate responses): all outcomes x methods x paths x No-Response x delays x overrides, over TCP
+    for c in udp_cases:
+        if not c.get("udp_only"):
+            cases.append(as_tcp(c, csm=rng.choice(["big", "plain"])))
     return cases
 
 
 # --------------------------------------------------------------------------- run / replay
 
 def observe(case):
-    return c09_run.run_case(case)
+    return c09_tcp.run_case(case) if is_tcp(case) else c09_run.run_case(case)
+
+
+def judge(case, obs):
+    return oracle_tcp(case, obs) if is_tcp(case) else oracle(case, obs)
 
 
 def check_case(env, rep, case, lines, impls, kept):
     obs = observe(case)
     evs, info = schedule(case, obs["stops"])
-    if any(h["o"] == "unenc" or (h["o"] == "rfail" and h.get("how") == "unenc")
-           for r in case["site"] or [] for h in r["handlers"].values()):
+    hs = [h for r in case["site"] or [] for h in r["handlers"].values()]
+    if any(h["o"] == "unenc" or (h["o"] == "rfail" and h.get("how") == "unenc") for h in hs):
         rep.count("oracle-only:unencodable-response")
+    elif any(h.get("etag") is not None for h in hs):
+        rep.count("oracle-only:response-with-options")
     else:
-        lines.append(model_line(case, evs))
+        lines.append(model_line(case, evs, obs))
         impls.append(impl_string(evs, obs))
         kept.append(case)
-    verdict, key = oracle(case, obs)
+    verdict, key = judge(case, obs)
     if verdict:
         rep.oracle_fail(case, verdict, key=key)
+    rep.count("transport=" + ("tcp" if is_tcp(case) else "udp"))
+    if is_tcp(case):
+        # sizes of the bodies (options + marker + payload) the property promises, by RFC 8323 length form -- from
+        # the case, not from what the implementation wrote
+        for rq, inf in zip(case["requests"], info):
+            e = expected(case, rq, inf)
+            if e is not None and e[2] is not None:
+                n = (1 + len(e[2]) if e[2] else 0) + (1 + len(inf["h"]["etag"]) // 2 if inf["h"] and inf["h"].get("etag") else 0)
+                rep.count("tcp-len-form=" + ("nibble" if n < 13 else "8bit" if n < 269 else "16bit" if n < 65805 else "32bit"))
+                if n in (12, 13, 268, 269, 65804, 65805):
+                    rep.count("tcp-body-length=%d" % n)
     # distribution
     n_wire = sum(1 for w in obs["wire"] if 64 <= w["code"] < 192 and not w["retransmission"])
     kinds = set()
@@ -771,6 +913,11 @@ def check_case(env, rep, case, lines, impls, kept):
         rep.count("outcome=" + k)
         rep.count("method=%d" % rq["code"] if rq["code"] < 8 else "method=unassigned")
         rep.count("type=" + rq["mtype"])
+        if inf["h"] is not None and inf["h"]["o"] == "ret" and inf["h"]["code"] is not None \
+                and not 64 <= inf["h"]["code"] < 192:
+            rep.count("returned-code=non-response")
+        if inf["h"] is not None and inf["h"].get("shared"):
+            rep.count("shared-response-object")
         if inf["h"] is not None:
             d = inf["h"].get("d", 0)
             rep.count("delay=" + ("0" if d == 0 else "<ead" if d < EAD else "=ead" if d == EAD else ">ead"))
@@ -807,9 +954,12 @@ def run(env, rep):
     gen = Gen(env.rng)
     cases = [c["case"] for _, c in load_corpus("C09") if "case" in c]
     ncorpus = len(cases)
-    cases += boundary_cases(gen)
+    udp_tables = boundary_cases(gen)
+    cases += udp_tables
+    cases += tcp_boundary_cases(gen, udp_tables)
     nb = len(cases) - ncorpus
     cases += [gen.random_case() for _ in range(env.scale(1200, 25000))]
+    cases += [random_tcp_case(gen) for _ in range(env.scale(250, 5000))]
     lines, impls, kept = [], [], []
     for case in cases:
         check_case(env, rep, case, lines, impls, kept)
@@ -820,10 +970,15 @@ def run(env, rep):
     rep.exhaustive_parts.append(
         "%d boundary cases: methods x code given/absent x CON/NON x paths; no site; every renderable class; "
         "every exception / wrong-return / failing-renderer kind; No-Response table; delays around the "
-        "empty ACK; override reactions" % nb)
+        "empty ACK; override reactions; returned / rendered codes outside the response classes; one response "
+        "object handed out again; the same tables over CoAP-over-TCP plus response sizes on every RFC 8323 "
+        "length boundary x token lengths x kind of outcome" % nb)
     for need in ("outcome=ret", "outcome=rend", "outcome=exc", "outcome=nonmsg", "outcome=rfail",
                  "outcome=cancel", "outcome=hang", "outcome=unknown-path", "outcome=no-method",
-                 "outcome=nosite", "overridden", "delay=>ead", "retransmissions"):
+                 "outcome=nosite", "overridden", "delay=>ead", "retransmissions", "transport=tcp",
+                 "returned-code=non-response", "shared-response-object", "tcp-body-length=12",
+                 "tcp-body-length=13", "tcp-body-length=268", "tcp-body-length=269", "tcp-body-length=65804",
+                 "tcp-body-length=65805", "tcp-len-form=32bit"):
         if not rep.hist.get(need):
             raise HarnessError("generator did not produce any " + need)
 
@@ -833,4 +988,4 @@ def replay(env, case):
     env.import_repo()
     from aiocoap.numbers.constants import TransportTuning
     EAD = vloop.ticks(vloop.q(TransportTuning().EMPTY_ACK_DELAY))
-    return oracle(case, observe(case))[0]
+    return judge(case, observe(case))[0]
